@@ -40,22 +40,90 @@ func (x *Ctx) wrapperPassThrough(r *core.Result, rs *core.RuleStat, names ...str
 	}
 }
 
-// isExtractOfMachineCall: v is an Extract of a call to an in-library function, or a phi of such values.
+// isExtractOfMachineCall: v is a result of the machine call itself, a phi of such values, or the result of a private
+// helper that hands back — on every one of its returns — a parameter bound to such a value (a helper that may
+// substitute another error or offset on some path is not a pass-through).
 func (x *Ctx) isExtractOfMachineCall(v ssa.Value, seen map[ssa.Value]bool) bool {
+	return x.passThrough(v, nil, seen, 0)
+}
+
+func (x *Ctx) passThrough(v ssa.Value, bind map[ssa.Value]ssa.Value, seen map[ssa.Value]bool, depth int) bool {
+	if b, ok := bind[v]; ok {
+		return x.passThrough(b, nil, seen, depth) // the caller's frame (one level of binding at a time)
+	}
 	if seen[v] {
 		return true
 	}
 	seen[v] = true
-	switch v := v.(type) {
-	case *ssa.Extract:
-		if c, ok := v.Tuple.(*ssa.Call); ok {
-			if callee := c.Call.StaticCallee(); callee != nil && x.W.InLib(callee) {
-				return true
+	viaCall := func(c *ssa.Call, idx int) bool {
+		callee := c.Call.StaticCallee()
+		if callee == nil || !x.W.InLib(callee) {
+			return false
+		}
+		if x.Machine(callee.Name()) != nil {
+			return true
+		}
+		if !x.isPrivateHelper(callee) || callee.Blocks == nil || depth >= 3 || len(callee.Params) != len(c.Call.Args) {
+			return false
+		}
+		nb := map[ssa.Value]ssa.Value{}
+		for i, p := range callee.Params {
+			a := c.Call.Args[i]
+			if ba, ok := bind[a]; ok {
+				a = ba
+			}
+			nb[p] = a
+		}
+		n := 0
+		for _, blk := range callee.Blocks {
+			ret, ok := blk.Instrs[len(blk.Instrs)-1].(*ssa.Return)
+			if !ok || idx >= len(ret.Results) {
+				continue
+			}
+			n++
+			res := ret.Results[idx]
+			if _, isParam := res.(*ssa.Parameter); !isParam {
+				if _, isPhi := res.(*ssa.Phi); !isPhi {
+					return false
+				}
+			}
+			if !x.passThroughIn(res, nb, map[ssa.Value]bool{}, depth+1) {
+				return false
 			}
 		}
+		return n > 0
+	}
+	switch t := v.(type) {
+	case *ssa.Extract:
+		if c, ok := t.Tuple.(*ssa.Call); ok {
+			return viaCall(c, t.Index)
+		}
+	case *ssa.Call:
+		return viaCall(t, 0)
 	case *ssa.Phi:
-		for _, e := range v.Edges {
-			if !x.isExtractOfMachineCall(e, seen) {
+		for _, e := range t.Edges {
+			if !x.passThrough(e, bind, seen, depth) {
+				return false
+			}
+		}
+		return true
+	}
+	return false
+}
+
+// passThroughIn: inside a helper, v must be a parameter (bound to the caller's value) or a phi of parameters.
+func (x *Ctx) passThroughIn(v ssa.Value, bind map[ssa.Value]ssa.Value, seen map[ssa.Value]bool, depth int) bool {
+	if seen[v] {
+		return true
+	}
+	seen[v] = true
+	switch t := v.(type) {
+	case *ssa.Parameter:
+		b, ok := bind[t]
+		return ok && x.passThrough(b, nil, map[ssa.Value]bool{}, depth)
+	case *ssa.Phi:
+		for _, e := range t.Edges {
+			if !x.passThroughIn(e, bind, seen, depth) {
 				return false
 			}
 		}
